@@ -83,6 +83,8 @@ def materialise(desc):
     elif fam == 'degenerate':
         sc = scenes.degenerate_scene(rng, k['kind'])
         prm = scenes.gen_prms(rng, sc, rich=k.get('rich', False))
+        if k.get('prm_only_over'):
+            prm = {'call': {}, 'glob': {}}
     else:
         raise ValueError('unknown family ' + fam)
     if k.get('index') == 'concat':
@@ -110,11 +112,31 @@ def materialise(desc):
         sc['extra'] = k['extra']
     if 'prm_over' in k:
         prm['call'] = scenes.deep_merge(prm['call'], k['prm_over'])
+    uk = k.get('unknown_keys', 'auto')
+    if uk == 'auto':
+        uk = ['first', 'nested', 'last'][(desc.get('i', 0) // 11) % 3] if desc.get('i', 0) % 11 == 3 else None
+    if uk and prm['call']:
+        prm['call'] = with_unknown_keys(prm['call'], uk)
     eff = obs.effective(prm)
     if not desc.get('allow_empty') and scenes.empties_chunk(sc, eff):
         # known finding D8 (chunk emptied by the crop) is decided by C08 only: nudge the MSA
         prm['call']['MSA'] = None
     return {'scene': sc, 'prm': prm}
+
+
+def with_unknown_keys(call, where):
+    """Unknown / obsolete entries (documented: ignored with a warning) placed before or after the known ones."""
+    out = {}
+    if where in ('first', 'nested'):
+        out['OBSOLETE_PRM'] = 1
+        out['OLD_SECTION'] = {'x': [1, 2]}
+    for key, val in call.items():
+        if isinstance(val, dict) and where == 'nested':
+            val = dict({'obsolete_kw': 0}, **{kk: (dict({'old': None}, **vv) if isinstance(vv, dict) else vv) for kk, vv in val.items()})
+        out[key] = val
+    if where == 'last':
+        out['OBSOLETE_PRM'] = 1
+    return out
 
 
 def base_prms(rng, sc, k):
